@@ -9,13 +9,13 @@ namespace XmlDiffModel
 namespace Acc
 open Tree Undo TextMark MapId JInv Dmp Rej
 
-theorem segsOK_feed (bis : Bisect) (qn : QName) (s : FState) (h : FOK s) (T : Tree) (nx : Nat) (σ : Nat → Nat)
-    (r : Rel σ T (acc (cln accS) s.tree) nx s.next) (HR HT HA : List Nat) (J : JAll σ s.tree T HR HT HA)
-    (a : Action) (hsu : SUAct qn T a) (htx : TextsOK a) (hsh : ShortTexts a) (p1 : PState)
+theorem segsOK_feed (w : Bool) (bis : Bisect) (qn : QName) (s : FState) (h : FOK s) (T : Tree) (nx : Nat) (σ : Nat → Nat)
+    (r : Rel σ T (acc (cln accS) s.tree) nx s.next) (HR HT HA : List Nat) (J : JAll w σ s.tree T HR HT HA)
+    (a : Action) (hsu : SUAct qn T a) (htx : TextsOK a) (hsh : ShortTexts w a) (p1 : PState)
     (hp : applyUniq qn ⟨T, nx⟩ a = .ok p1)
     (dT : ∀ i ∈ Once.targets Once.textSel qn ⟨T, nx⟩ [a], i ∉ HT)
     (dA : ∀ i ∈ Once.targets Once.tailSel qn ⟨T, nx⟩ [a], i ∉ HA) (hs : SegsOK s.segs) :
-    SegsOK (feed false bis qn s a).segs := by
+    SegsOK (feed w bis qn s a).segs := by
   rw [targets_single Once.textSel qn ⟨T, nx⟩ p1 a hp] at dT
   rw [targets_single Once.tailSel qn ⟨T, nx⟩ p1 a hp] at dA
   cases a
@@ -27,11 +27,11 @@ theorem segsOK_feed (bis : Bisect) (qn : QName) (s : FState) (h : FOK s) (T : Tr
     | ok nd =>
       obtain ⟨m, hm, hin, hf⟩ := node_link qn s h T nx σ r n nd x hx hh
       simp only [Once.textSel, hh] at dT
-      have hno := unflagged FT σ s.tree T HT J.jt nd.id hin (dT nd.id (by simp)) m hf
-      have hpl : Plain m.payload.text := Classical.not_not.1 hno
-      have hpt : Plain t := ⟨htx.1, hsh⟩
-      obtain ⟨g1, g2, g3, _, _⟩ := engine_answer bis m.payload.text t hpl hpt
-      simp only [feed, hm, question, Bool.false_eq_true, if_false]
+      have hno := unflagged (FT w) σ s.tree T HT J.jt nd.id hin (dT nd.id (by simp)) m hf
+      have hpl : Plain w m.payload.text := Classical.not_not.1 hno
+      have hpt : Plain w t := ⟨htx.1, hsh.1, hsh.2⟩
+      obtain ⟨g1, g2, g3, _, _⟩ := engine_answer w bis m.payload.text t hpl hpt
+      simp only [feed, hm, question_plain w _ _ hpl hpt]
       intro d hd
       simp only [List.mem_cons, List.mem_nil_iff, or_false] at hd
       subst hd
@@ -44,11 +44,11 @@ theorem segsOK_feed (bis : Bisect) (qn : QName) (s : FState) (h : FOK s) (T : Tr
     | ok nd =>
       obtain ⟨m, hm, hin, hf⟩ := node_link qn s h T nx σ r n nd x hx hh
       simp only [Once.tailSel, hh] at dA
-      have hno := unflagged FA σ s.tree T HA J.ja nd.id hin (dA nd.id (by simp)) m hf
-      have hpl : Plain m.payload.tail := Classical.not_not.1 hno
-      have hpt : Plain t := ⟨htx.1, hsh⟩
-      obtain ⟨g1, g2, g3, _, _⟩ := engine_answer bis m.payload.tail t hpl hpt
-      simp only [feed, hm, question, Bool.false_eq_true, if_false]
+      have hno := unflagged (FA w) σ s.tree T HA J.ja nd.id hin (dA nd.id (by simp)) m hf
+      have hpl : Plain w m.payload.tail := Classical.not_not.1 hno
+      have hpt : Plain w t := ⟨htx.1, hsh.1, hsh.2⟩
+      obtain ⟨g1, g2, g3, _, _⟩ := engine_answer w bis m.payload.tail t hpl hpt
+      simp only [feed, hm, question_plain w _ _ hpl hpt]
       intro d hd
       simp only [List.mem_cons, List.mem_nil_iff, or_false] at hd
       subst hd
@@ -60,16 +60,16 @@ theorem actLow_of_textsOK (a : Action) (h : TextsOK a) : ActLow a := by
   case updateTextIn n t => exact h.1
 
 /-- along the run of `run_E` the maker state stays and every text of the working tree stays a marked text -/
-theorem run_E_finv (bis : Bisect) (qn : QName) (script : List Action) (s : FState) (h : FOK s) (inv : ROK s) (T : Tree)
+theorem run_E_finv (w : Bool) (bis : Bisect) (qn : QName) (script : List Action) (s : FState) (h : FOK s) (inv : ROK s) (T : Tree)
     (nx : Nat) (σ : Nat → Nat) (r : Rel σ T (acc (cln accS) s.tree) nx s.next) (HR HT HA : List Nat)
-    (J : JAll σ s.tree T HR HT HA) (fi : FInv s)
-    (hst : ∀ a ∈ script, NoComment a ∧ PlainNames a ∧ TextsOK a ∧ ShortTexts a)
+    (J : JAll w σ s.tree T HR HT HA) (fi : FInv s)
+    (hst : ∀ a ∈ script, NoComment a ∧ PlainNames a ∧ TextsOK a ∧ ShortTexts w a)
     (hpaths : PathsOK qn ⟨T, nx⟩ script)
     (nR : (HR ++ Once.targets Once.renSel qn ⟨T, nx⟩ script).Nodup)
     (nT : (HT ++ Once.targets Once.textSel qn ⟨T, nx⟩ script).Nodup)
     (nA : (HA ++ Once.targets Once.tailSel qn ⟨T, nx⟩ script).Nodup)
     (p' : PState) (hp : runUniq qn ⟨T, nx⟩ script = .ok p') (s' : FState)
-    (hrun : runFmtE false bis qn s script = .ok s') : FInv s' ∧ s'.ph = s.ph := by
+    (hrun : runFmtE w bis qn s script = .ok s') : FInv s' ∧ s'.ph = s.ph := by
   induction script generalizing s T nx σ HR HT HA with
   | nil =>
     simp only [runFmtE, Except.ok.injEq] at hrun
@@ -80,11 +80,11 @@ theorem run_E_finv (bis : Bisect) (qn : QName) (script : List Action) (s : FStat
     obtain ⟨hsa, hpm, hsr⟩ := hpaths
     obtain ⟨ha1, ha2, ha3, ha4⟩ := hst a (by simp)
     rw [targets_cons _ qn ⟨T, nx⟩ p1 a rest h1] at nR nT nA
-    obtain ⟨s1, σ1, e1, e2, e3, e4, _, e6⟩ := step_E bis qn s h inv T nx σ r HR HT HA J a ha1 hsa hpm ha2 ha3 ha4 p1 h1
+    obtain ⟨s1, σ1, e1, e2, e3, e4, _, e6⟩ := step_E w bis qn s h inv T nx σ r HR HT HA J a ha1 hsa hpm ha2 ha3 ha4 p1 h1
       (disjoint_of_nodup nR) (disjoint_of_nodup nT) (disjoint_of_nodup nA)
-    have hso := segsOK_feed bis qn s h T nx σ r HR HT HA J a hsa ha3 ha4 p1 h1 (disjoint_of_nodup nT)
+    have hso := segsOK_feed w bis qn s h T nx σ r HR HT HA J a hsa ha3 ha4 p1 h1 (disjoint_of_nodup nT)
       (disjoint_of_nodup nA) fi.segs
-    obtain ⟨sg, hfe⟩ := feed_eq bis qn s a
+    obtain ⟨sg, hfe⟩ := feed_eq w bis qn s a
     rw [hfe] at hso e1
     have fi0 : FInv { s with segs := sg } := ⟨fi.base, fi.marked, fi.norep, hso⟩
     obtain ⟨fi1, hph1⟩ := applyFmt_inv qn _ s1 a fi0 (actLow_of_textsOK a ha3) e1
